@@ -8,7 +8,11 @@ export GOFLAGS=-mod=mod GOPROXY=off GOSUMDB=off GOTOOLCHAIN=local
 wt="/tmp/mut-$id-$$"
 git -C /repo worktree add -q --detach "$wt" HEAD || exit 3
 trap 'git -C /repo worktree remove --force "$wt" >/dev/null 2>&1; rm -rf /verif/.build/$(python3 -c "import hashlib,sys;print(hashlib.sha1(sys.argv[1].encode()).hexdigest()[:10])" "$wt")' EXIT
-if ! git -C "$wt" apply "/verif/seeded/$id/patch.diff"; then echo "RESULT $id $prop patch-does-not-apply"; exit 3; fi
+if ! git -C "$wt" apply "/verif/seeded/$id/patch.diff" 2>/dev/null; then
+  # /repo main moved since the change was seeded (later fix: commits): fall back to a 3-way apply
+  if ! git -C "$wt" apply -3 "/verif/seeded/$id/patch.diff" >/dev/null 2>&1; then echo "RESULT $id $prop patch-does-not-apply"; exit 3; fi
+fi
+if ! (cd "$wt" && go build ./... >/dev/null 2>&1); then echo "RESULT $id $prop patched-tree-does-not-build"; exit 3; fi
 VERIF_REPO="$wt" /verif/check "$prop" --tier "$tier" > "/tmp/mut-$id-$prop.log" 2>&1
 rc=$?
 grep -E "^(VIOLATION|KNOWN-FINDING|OK|FAIL|INCONCLUSIVE|BUILD-ERROR)" "/tmp/mut-$id-$prop.log" | head -8
